@@ -219,3 +219,29 @@ Definition build_edges_curves (p : path) (shift : Z) : option (option (list ledg
       | Some its => Some (if (length its <? 2)%nat then None else Some (flat_map item_lines its))
       end
   end.
+
+(* ---- an executable test used by the fill theorem for paths with cubics (Proofs/CurveFillProofs.v) ------------------------ *)
+Definition fd6m (v : f32) (shift : Z) : Z := F32.to_i32 (F32.mul v (F32.of_Z (2 ^ (shift + 6)))).
+
+(* the lines of the cubic edge stop exactly on the rounded ordinate of its lower end point: the pin did not lengthen it *)
+Definition cubic_exact (c : cub) (shift : Z) : bool :=
+  let '(a, b, c2, d) := c in
+  match cubic_edge_lines a b c2 d shift, fdot6_round (Z.max (fd6m (py a) shift) (fd6m (py d) shift)) with
+  | Some ls, Some bot => match rev ls with [] => true | e :: _ => e_last_y e + 1 =? bot end
+  | _, _ => false
+  end.
+
+Definition seg_exact (shift : Z) (s : seg) : bool :=
+  match s with
+  | SCubic a b c d => forallb (fun q => cubic_exact q shift) (chop_cubic_at_y_extrema (a, b, c, d))
+  | _ => true
+  end.
+
+(* -1: the path has no segments list; 2: no cubic segment; 1: every cubic piece is exact; 0: some piece overshoots *)
+Definition path_cubics_exact (p : path) (shift : Z) : Z :=
+  match path_segs p with
+  | None => -1
+  | Some segs =>
+      if forallb (fun s => match s with SCubic _ _ _ _ => false | _ => true end) segs then 2
+      else if forallb (seg_exact shift) segs then 1 else 0
+  end.
